@@ -582,6 +582,36 @@ func dotDiff(want, got []string) string {
 	return ""
 }
 
+// dotDiffKind names the shape of a round-trip difference, so that a known
+// finding (edges of a subgraph end point are dropped) does not hide other
+// differences: "edges-missing" = nothing unexpected was read back and
+// everything that is missing is an edge.
+func dotDiffKind(want, got []string) string {
+	have := map[string]int{}
+	for _, g := range got {
+		have[g]++
+	}
+	onlyEdges := true
+	for _, w := range want {
+		if have[w] > 0 {
+			have[w]--
+			continue
+		}
+		if !strings.HasPrefix(w, "edge") {
+			onlyEdges = false
+		}
+	}
+	for _, n := range have {
+		if n > 0 {
+			return "other"
+		}
+	}
+	if onlyEdges {
+		return "edges-missing"
+	}
+	return "other"
+}
+
 func dotOrNone(s string) string {
 	if s == "" {
 		return "<nothing>"
@@ -1107,7 +1137,7 @@ func runDotStructured(c *Ctx, used map[string]bool) *Violation {
 			return viol("dot/"+codec+"/"+strings.ToLower(what)+"-rejected", "Unmarshal rejects the output of Marshal for a %s graph: %v\noutput:\n%s", what, err, b)
 		}
 		if d := dotDiff(want, dotDescribe(dst)); d != "" {
-			return viol("dot/"+codec+"/"+strings.ToLower(what)+"-roundtrip", "graph read back from the Marshal output of a %s graph is not the union of the graph and its subgraphs: %s\noutput of Marshal:\n%s", what, d, b)
+			return viol("dot/"+codec+"/"+strings.ToLower(what)+"-roundtrip/"+dotDiffKind(want, dotDescribe(dst)), "graph read back from the Marshal output of a %s graph is not the union of the graph and its subgraphs: %s\noutput of Marshal:\n%s", what, d, b)
 		}
 		return nil
 	})
